@@ -283,6 +283,8 @@ class Ctx:
             self.diverge(d.get("sig", "?"), d.get("what", ""), d.get("case"))
         se = rep.get("spec_errors", [])
         if se:
+            os.makedirs(BUILD, exist_ok=True)
+            json.dump(se, open(os.path.join(BUILD, "spec_errors_%s.json" % self.pid), "w"), indent=1)
             raise ToolingError("SPEC-ERROR: spec disagrees with git on %d cases, e.g. %s"
                                % (len(se), json.dumps(se[:5])[:1500]))
         for k, v in rep.get("extra", {}).items():
@@ -355,6 +357,10 @@ def finish(ctx, level, err=None):
         else:
             new.setdefault(d["sig"], []).append(d)
     os.makedirs(os.path.join(EVID, "replays"), exist_ok=True)
+    if not ctx.replay:
+        for f in os.listdir(os.path.join(EVID, "replays")):
+            if f.startswith(ctx.pid + "-"):
+                os.remove(os.path.join(EVID, "replays", f))
     rc = 0
     lines = []
     for sig, ds in sorted(hit.items()):
